@@ -57,7 +57,7 @@ def run(tier, replay):
     lib.build(fc.GROUP)
     quick = tier == "quick"
     pool = ThreadPoolExecutor(max_workers=1)
-    mcf = pool.submit(fc.run_mc, PID, "KProtoFilterMC", MC_T, shards(tier), 2 if quick else 8, 900 if quick else 2400)
+    mcf = pool.submit(fc.run_mc, PID, "KProtoFilterMC", MC_T, shards("quick" if replay else tier), 2 if quick else 8, 900 if quick else 2400)
     obs = f"{wd}/obs.ndjson"
     if replay:
         lib.kverif(fc.GROUP, ["c41", "--out", obs, "--replay", replay])
@@ -76,7 +76,7 @@ def run(tier, replay):
     tot = [sum(c[1][i] for c in census) for i in range(7)]
     if tot[6] != 0:
         lib.tool_error("model: a divergence outside the signed classes exists")
-    if tot[1] == 0 or tot[2] == 0 or tot[3] == 0 or tot[4] == 0:
+    if not replay and (tot[1] == 0 or tot[2] == 0 or tot[3] == 0 or tot[4] == 0):
         lib.tool_error(f"model census is vacuous: {tot}")
     if not replay and cases:
         cf, obs2 = f"{wd}/cases.ndjson", f"{wd}/obs_cases.ndjson"
